@@ -243,7 +243,7 @@ func c05Constructors(c *ctx, rng *core.Rand) {
 		}
 		c.res.OracleChecks++
 		fail := func(what, got, want string) {
-			c.res.Fail(core.OracleFailure{What: "MapFromItems with repeated keys: " + what, Input: fmt.Sprint(items), Got: got, Want: want})
+			c.res.Fail(core.OracleFailure{What: "MapFromItems: " + what, Input: fmt.Sprint(items), Got: got, Want: want})
 		}
 		var rng2 pairs
 		m.Range(func(k string, v any) error { rng2 = append(rng2, vl.KV{K: k, V: v}); return nil })
@@ -272,6 +272,38 @@ func c05Constructors(c *ctx, rng *core.Rand) {
 			if err := json.Unmarshal(jb, &back); err != nil || !ordered.EqualSA(&back, built) {
 				fail("JSON encode then decode", string(jb), fmt.Sprint(ref))
 			}
+		}
+		// the map owns its storage: a second map from the same slice, the slice itself and this map are three
+		// independent things (the caller may keep, reuse or modify the slice; either map may be modified)
+		if len(items) > 0 {
+			keep := append([]ordered.TupleSA(nil), items...)
+			spare := append(make([]ordered.TupleSA, 0, len(items)+4), items...) // a slice with spare capacity
+			a := ordered.MapFromItems(spare...)
+			b := ordered.MapFromItems(spare...)
+			a.Set(ref[0].K, "changed-in-a")
+			a.Set("fresh-in-a", 1)
+			a.Replace(ref[len(ref)-1].K, "renamed-in-a", 2)
+			a.Delete(ref[0].K)
+			var rb pairs
+			b.Range(func(k string, v any) error { rb = append(rb, vl.KV{K: k, V: v}); return nil })
+			if !pairsEqual(rb, ref) {
+				fail("a second map built from the same slice changed when the first was modified", fmt.Sprint(rb), fmt.Sprint(ref))
+			}
+			if !reflect.DeepEqual(spare, keep) {
+				fail("the caller's slice was modified through the map", fmt.Sprint(spare), fmt.Sprint(keep))
+			}
+			for x := range spare {
+				spare[x] = ordered.TupleSA{Key: "overwritten", Value: x}
+			}
+			rb = nil
+			b.Range(func(k string, v any) error { rb = append(rb, vl.KV{K: k, V: v}); return nil })
+			if !pairsEqual(rb, ref) {
+				fail("the map changed when the caller modified the slice it was built from", fmt.Sprint(rb), fmt.Sprint(ref))
+			}
+			if v, ok := b.Get(ref[0].K); !ok || !reflect.DeepEqual(v, ref[0].V) {
+				fail("Get after the caller modified the slice", fmt.Sprint(v, ok), fmt.Sprint(ref[0].V))
+			}
+			c.res.Hist("constructor.MapFromItems.independent-of-slice")
 		}
 		c.res.Case("items:"+fmt.Sprint(items), len(items) > 1)
 		c.res.Hist("constructor.MapFromItems")
